@@ -65,6 +65,9 @@ def _case(draw, tier):
         "remap_after_use": prob(draw, 0.25),
         # the inner graph binds the broadcast input; the outer run supplies another value for it (the run-time value wins)
         "inner_binds_bc": prob(draw, 0.25),
+        # an inner node MUTATES the list it receives as a signature default (nobody supplies it): every item starts from a pristine
+        # default, as a single run does
+        "default_mut": prob(draw, 0.25),
     }
 
 
@@ -83,9 +86,11 @@ def inner_spec(case):
     if case["mut"]:
         expr = {"list": "tuple(cfg)", "tuple_list": "tuple(cfg[0])", "dict": "tuple(cfg['k'])"}[case.get("cfg_shape", "list")]
         nodes.append({"k": "func", "name": "mut", "params": ["cfg", "key"], "defaults": {}, "outs": ["m"], "expr": expr})
+    if case.get("default_mut"):
+        nodes.append({"k": "func", "name": "dm", "params": ["key", "dflt_m"], "defaults": {"dflt_m": {"__mut__": "list"}}, "outs": ["dmo"], "mutates": ["dflt_m"]})
     spec = {"nodes": nodes, "name": "inner"}
     if case.get("inner_select"):
-        spec["select"] = list(case["inner_select"]) + (["m"] if case["mut"] else [])
+        spec["select"] = list(case["inner_select"]) + (["m"] if case["mut"] else []) + (["dmo"] if case.get("default_mut") else [])
     return spec
 
 
@@ -258,6 +263,8 @@ def check_case(case, ev):
         outs = {"key": "key", "e": "e", "o": "o"}
         if case["mut"]:
             outs["m"] = "m"
+        if case.get("default_mut"):
+            outs["dmo"] = "dmo"
         if gspec.get("select"):
             outs = {k2: v2 for k2, v2 in outs.items() if k2 in gspec["select"]}
 
@@ -319,8 +326,17 @@ def check_case(case, ev):
             exp = [None if s[0] == "failed" else s[1].get(name) for s in singles]
             got = out.values.get(ext)
             if got != exp:
-                raise Violation("c10.node_lists", f"[{tag}] output {ext!r} (inner {name!r}) = {J(got)}, expected one entry per combination {J(exp)}; order={order} lists={J(lists)}",
-                                what="length" if got is None or len(got) != len(exp) else "content")
+                shared_default = name == "dmo" and got is not None and len(got) == len(exp) and all(
+                    (a_ is None) == (b_ is None) for a_, b_ in zip(got, exp))
+                v_ = Violation("c10.node_lists", f"[{tag}] output {ext!r} (inner {name!r}) = {J(got)}, expected one entry per combination {J(exp)}; order={order} lists={J(lists)}"
+                               + ("; the items of the mapping node share ONE copy of the mutated signature default" if shared_default else ""),
+                               what="length" if got is None or len(got) != len(exp) else "content", shared_default_in_mapping_node=shared_default)
+                from ..core import match_open
+
+                kf = match_open(ID, v_.sig)
+                if kf is None:
+                    raise v_
+                ev.known_excluded[kf["id"]] += 1
         if case["mut"] and v.get(inmap.get("cfg", "cfg")) != cfg0:
             raise Violation("c10.clone_leak", f"[{tag}] caller's broadcast list was modified although clone={case['clone']}: {J(v.get(inmap.get('cfg', 'cfg')))}")
 
